@@ -142,7 +142,12 @@ void dec_run(dec_spec *s, const lzma_allocator *a, const uint8_t *in, size_t in_
 	lzma_stream strm = LZMA_STREAM_INIT;
 	if (s->warm_in != NULL && s->kind != D_FILE_INFO && s->kind != D_INDEX) {
 		// use the handle once for another input of the same decoder, then re-initialise it without lzma_end()
-		if (dec_init(&strm, s, a, s->warm_in, s->warm_n) == LZMA_OK) {
+		// the first life of the handle uses another memory limit, so that anything left over from it is visible
+		const uint64_t keep_limit = s->memlimit;
+		s->memlimit = keep_limit == UINT64_MAX ? UINT64_C(1) << 40 : UINT64_MAX;
+		const lzma_ret wret = dec_init(&strm, s, a, s->warm_in, s->warm_n);
+		s->memlimit = keep_limit;
+		if (wret == LZMA_OK) {
 			slice_plan wp = { .mode = SL_WHOLE, .final_action = LZMA_FINISH, .continue_informational = true };
 			vbuf wo = {0}; slice_result wr;
 			slicer_run(&strm, s->warm_in + s->skip, s->warm_n - s->skip, &wo, &wp, &wr);
@@ -156,6 +161,14 @@ void dec_run(dec_spec *s, const lzma_allocator *a, const uint8_t *in, size_t in_
 		lzma_end(&strm); dec_cleanup(s, a);
 		return;
 	}
+	// the limit in force is the one just given, also on a reused handle (and asking must not trip an assertion)
+	bool readback_bad = false; uint64_t readback = 0;
+	if (s->kind == D_STREAM || s->kind == D_STREAM_MT || s->kind == D_AUTO || s->kind == D_ALONE || s->kind == D_LZIP
+			|| s->kind == D_INDEX || s->kind == D_FILE_INFO) {
+		readback = lzma_memlimit_get(&strm);
+		(void)lzma_memusage(&strm);
+		readback_bad = readback != (s->memlimit ? s->memlimit : 1);
+	}
 	if (s->kind == D_FILE_INFO) {
 		run_file_info(&strm, s, in, in_size, plan, res);
 	} else {
@@ -163,6 +176,11 @@ void dec_run(dec_spec *s, const lzma_allocator *a, const uint8_t *in, size_t in_
 		if (s->kind == D_STREAM_MT && s->timeout) p.timeout_coder = true;
 		slicer_run(&strm, in + s->skip, in_size - s->skip, &res->out, &p, &res->sr);
 		res->ret = res->sr.ret; res->total_in = res->sr.total_in; res->total_out = res->sr.total_out;
+	}
+	if (readback_bad && !res->sr.protocol_violation) {
+		res->sr.protocol_violation = true;
+		snprintf(res->sr.why, sizeof(res->sr.why), "lzma_memlimit_get() right after %s init returned %" PRIu64 ", the limit given was %" PRIu64 "%s",
+				d_names[s->kind], readback, s->memlimit, s->warm_in ? " (handle reused without lzma_end)" : "");
 	}
 	lzma_end(&strm);
 	// keep idx_out for the caller to inspect? callers that need it use their
